@@ -42,26 +42,52 @@ impl builtins::Command for CommandCommand {
         // Silently exit if no command was provided.
         if let Some(command_name) = self.command() {
             if self.print_description || self.print_verbose_description {
-                if let Some(found_cmd) =
-                    Self::try_find_command(context.shell, command_name, self.use_default_path)
-                {
-                    if self.print_description {
-                        writeln!(context.stdout(), "{found_cmd}")?;
-                    } else {
-                        match found_cmd {
-                            FoundCommand::Builtin(_name) => {
-                                writeln!(context.stdout(), "{command_name} is a shell builtin")?;
-                            }
-                            FoundCommand::External(path) => {
-                                writeln!(context.stdout(), "{command_name} is {path}")?;
+                // Every name is described; the result is a success if any of them was found.
+                let mut any_found = false;
+                for command_name in &self.command_and_args {
+                    if let Some(found_cmd) =
+                        Self::try_find_command(context.shell, command_name, self.use_default_path)
+                    {
+                        any_found = true;
+                        if self.print_description {
+                            writeln!(context.stdout(), "{found_cmd}")?;
+                        } else {
+                            match found_cmd {
+                                FoundCommand::Alias(_name, target) => {
+                                    writeln!(
+                                        context.stdout(),
+                                        "{command_name} is aliased to `{target}'"
+                                    )?;
+                                }
+                                FoundCommand::Keyword(_name) => {
+                                    writeln!(
+                                        context.stdout(),
+                                        "{command_name} is a shell keyword"
+                                    )?;
+                                }
+                                FoundCommand::Function(_name, definition) => {
+                                    writeln!(context.stdout(), "{command_name} is a function")?;
+                                    writeln!(context.stdout(), "{definition}")?;
+                                }
+                                FoundCommand::Builtin(_name) => {
+                                    writeln!(
+                                        context.stdout(),
+                                        "{command_name} is a shell builtin"
+                                    )?;
+                                }
+                                FoundCommand::External(path) => {
+                                    writeln!(context.stdout(), "{command_name} is {path}")?;
+                                }
                             }
                         }
-                    }
-                    Ok(ExecutionResult::success())
-                } else {
-                    if self.print_verbose_description {
+                    } else if self.print_verbose_description {
                         writeln!(context.stderr(), "command: {command_name}: not found")?;
                     }
+                }
+
+                if any_found {
+                    Ok(ExecutionResult::success())
+                } else {
                     Ok(ExecutionResult::general_error())
                 }
             } else {
@@ -75,6 +101,9 @@ impl builtins::Command for CommandCommand {
 }
 
 enum FoundCommand {
+    Alias(String, String),
+    Keyword(String),
+    Function(String, String),
     Builtin(String),
     External(String),
 }
@@ -82,6 +111,8 @@ enum FoundCommand {
 impl Display for FoundCommand {
     fn fmt(&self, f: &mut std::fmt::Formatter<'_>) -> std::fmt::Result {
         match self {
+            Self::Alias(name, target) => write!(f, "alias {name}='{target}'"),
+            Self::Keyword(name) | Self::Function(name, _) => write!(f, "{name}"),
             Self::Builtin(name) => write!(f, "{name}"),
             Self::External(path) => write!(f, "{path}"),
         }
@@ -105,6 +136,25 @@ impl CommandCommand {
                 None
             }
         } else {
+            // Aliases, keywords and functions come first, as they do for `type`.
+            if let Some(target) = shell.aliases().get(command_name) {
+                return Some(FoundCommand::Alias(
+                    command_name.to_owned(),
+                    target.clone(),
+                ));
+            }
+
+            if shell.is_keyword(command_name) {
+                return Some(FoundCommand::Keyword(command_name.to_owned()));
+            }
+
+            if let Some(registration) = shell.funcs().get(command_name) {
+                return Some(FoundCommand::Function(
+                    command_name.to_owned(),
+                    registration.definition().to_string(),
+                ));
+            }
+
             if let Some(builtin_cmd) = shell.builtins().get(command_name)
                 && !builtin_cmd.disabled
             {
